@@ -101,6 +101,21 @@ def _gradlist(ctx, p, rng):
         ctx.ok('prog:gradient-list', ('gradlist', pr.name, p['rec'], ip))
 
 
+def _dup(rng, cg):
+    """the graph the drivers are called on: the recorded object itself, a deep copy of it, or what comes back from a pickle round
+    trip (a graph sent to a worker); a duplicate is a recorded graph of the same program"""
+    import copy, pickle
+    k = int(rng.integers(4))
+    try:
+        if k == 2:
+            return copy.deepcopy(cg)
+        if k == 3:
+            return pickle.loads(pickle.dumps(cg))
+    except Exception:
+        pass
+    return cg
+
+
 def _rec_operand(kind, x, rng):
     if kind == 'float':
         return np.array(x, dtype=float)
@@ -140,7 +155,7 @@ def _fl(q):
 def _poly(ctx, p, rng):
     N, M, rec = p['N'], p['M'], p['rec']
     polys = [PP.random_poly(rng, N, 4, 4) for _ in range(M)]
-    style = int(rng.integers(12))
+    style = int(rng.integers(24))
 
     def f(x):
         return PP.evaluate(algopy, polys, x, -1 - style)          # always a vector of length M
@@ -153,6 +168,7 @@ def _poly(ctx, p, rng):
         cgs, _ = progs.record(fs, [_rec_operand(rec, xr, rng)])
     except Exception as e:
         ctx.skip('not-traceable:poly:' + rec); return
+    cgv, cgs = _dup(rng, cgv), _dup(rng, cgs)
     pts = [xr.copy()] + [rng.integers(-3, 4, size=N).astype(float), np.round(rng.normal(size=N) * 1.5, 3), np.round(rng.normal(size=N), 3)]
     kept = []          # results handed out earlier must not be changed by later driver calls
     for ip, x in enumerate(pts):
@@ -283,6 +299,7 @@ def _prog(ctx, p, rng):
         cgs, _ = progs.record(gs, [_rec_operand(rec, xr, rng)])
     except Exception:
         ctx.skip('not-traceable:%s:%s' % (name, rec)); return
+    cgv, cgs = _dup(rng, cgv), _dup(rng, cgs)
     for ip in range(4):
         x = xr.astype(float).copy() if ip == 0 else bs(rng, (n,))
         intargs = (ip == 3 and dom == 'R')
